@@ -1694,6 +1694,9 @@ func (self *Node) removePair(i int) {
 	if last == nil {
 		return
 	}
+	if idx := (*linkedPairs)(self.p).index; idx != nil {
+		delete(idx, last.hash)
+	}
 	*last = Pair{}
 	// NOTICE: should be consistent with linkedPair.Len()
 	self.l--
@@ -1703,6 +1706,9 @@ func (self *Node) removePairAt(i int) {
 	p := (*linkedPairs)(self.p).At(i)
 	if p == nil {
 		return
+	}
+	if idx := (*linkedPairs)(self.p).index; idx != nil {
+		delete(idx, p.hash)
 	}
 	*p = Pair{}
 	// NOTICE: should be consistent with linkedPair.Len()
